@@ -561,10 +561,12 @@ class NDNApp:
         # Handle implicit SHA256
         if enc.Component.get_type(final_name[-1]) == enc.Component.TYPE_IMPLICIT_SHA256:
             node_name = final_name[:-1]
-            implicit_sha256 = enc.Component.get_value(final_name[-1])
+            implicit_sha256 = bytes(enc.Component.get_value(final_name[-1]))
         else:
             node_name = final_name
             implicit_sha256 = b''
+        # The pending entry outlives this call: do not keep views into a buffer the caller may reuse
+        node_name = [bytes(c) for c in node_name]
         node: InterestTreeNode = self._pit.setdefault(node_name, InterestTreeNode())
         deadline = utils.timestamp()
         if interest_param.lifetime is not None:
